@@ -184,7 +184,7 @@ func GenerateSet(t *tape.Tape, illFormed bool) *Set {
 			m.Root.Add(S("notification", g.name("notif"), g.leaf(m, nil, true).Stmt))
 		}
 	}
-	g.set.Mods = all
+	g.set.Mods = g.all
 	if illFormed {
 		n := 1
 		if t.Rare(4) {
@@ -1066,6 +1066,10 @@ func (g *gen) clusters() {
 		if len(importers) > 2 && t.Coin() {
 			n = 3
 		}
+		subCluster := t.Rare(3) // the deviators are submodules of one new module instead (below)
+		if subCluster {
+			n = 0
+		}
 		for i := 0; i < n; i++ {
 			m := importers[i]
 			d := S("deviation", g.schemaPath(m, l))
@@ -1083,6 +1087,39 @@ func (g *gen) clusters() {
 			m.Root.Add(d)
 		}
 		g.set.Probes["deviation_cluster_same_node"] = true
+		if subCluster {
+			// the same, but the deviators are SUBMODULES of one new module (the pinned tree ignores
+			// deviations written in submodules; a tree that learns to apply them meets two of them on one node)
+			dm := &Module{Name: g.name("dvm"), Prefix: g.name("pdv"), Imports: []*Module{base}}
+			dm.Root = S("module", dm.Name, S("namespace", "urn:"+dm.Name), S("prefix", dm.Prefix), S("import", base.Name, S("prefix", base.Prefix)))
+			var subs []*Module
+			pairKind := t.Draw(2)
+			for i := 0; i < 2+t.Draw(2); i++ {
+				sm := &Module{Name: g.name("dvs"), Prefix: dm.Prefix, Sub: true, BelongsTo: dm.Name, Imports: []*Module{base}}
+				sm.Root = S("submodule", sm.Name, S("belongs-to", dm.Name, S("prefix", dm.Prefix)), S("import", base.Name, S("prefix", base.Prefix)))
+				d := S("deviation", g.schemaPath(sm, l))
+				val := fmt.Sprint(1000 * (i + 1))
+				// pairs that do not commute: two different replacements of the type (the later one wins),
+				// or add-then-replace of the default (the other order has nothing to replace)
+				switch {
+				case pairKind == 0:
+					d.Add(S("deviate", "replace", S("type", []string{"int8", "uint32", "string"}[i%3])))
+				case hasDef:
+					d.Add(S("deviate", "replace", S("default", val)))
+				case i == 0:
+					d.Add(S("deviate", "add", S("default", val)))
+				default:
+					d.Add(S("deviate", "replace", S("default", val)))
+				}
+				sm.Root.Add(d)
+				dm.Root.Add(S("include", sm.Name))
+				subs = append(subs, sm)
+			}
+			g.mods = append(g.mods, dm)
+			g.all = append(g.all, dm)
+			g.all = append(g.all, subs...)
+			g.set.Probes["deviation_cluster_in_submodules"] = true
+		}
 		return
 	}
 	cs := g.containersOf(base)
